@@ -73,16 +73,23 @@ def frag_reads(header, contigs, method, idx, fr):
         qc1 = not fr['valid']
     cig1 = None if not clip else (('%dM%dS' % (l1, clip)) if rev else ('%dS%dM' % (clip, l1)))
     r2un = paired and fr.get('r2_unmapped', False)     # mate 2 unmapped, placed at mate 1's position
-    reads = [bamgen.make_read(header, name, cname, r1s, seq1, cigar=cig1, reverse=rev, paired=paired, read1=paired, proper=paired and not r2un,
-                              mate_contig=cname if paired else None, mate_pos=r1s if r2un else r2s,
+    c2name = cname
+    if paired and not r2un and fr.get('r2_c', -1) >= 0:       # -1: same contig (no JSON null in recorded cases)
+        c2name = contigs[fr['r2_c']][0]
+        r2s = min(r2s, contigs[fr['r2_c']][1] - l2 - 1)
+    reads = [bamgen.make_read(header, name, cname, r1s, seq1, cigar=cig1, reverse=rev, paired=paired, read1=paired,
+                              proper=paired and not r2un and c2name == cname, mate_contig=c2name if paired else None, mate_pos=r1s if r2un else r2s,
                               mate_reverse=(not rev) if paired and not r2un else False, mate_unmapped=r2un,
                               qcfail=qc1, tags=tags, dup=fr.get('dup_in', False))]
     if r2un:
         reads.append(bamgen.make_read(header, name, cname, r1s, fill(l2, idx * 11 + 3), paired=True, read2=True, unmapped=True,
                                       mate_contig=cname, mate_pos=r1s, mate_reverse=rev, tags=tags))
     elif paired:
-        reads.append(bamgen.make_read(header, name, cname, r2s, fill(l2, idx * 11 + 3), reverse=not rev, paired=True, read2=True,
-                                      proper=True, mate_contig=cname, mate_pos=r1s, mate_reverse=rev, tags=tags))
+        # r2_del: R2 aligned with a 2 bp deletion (reference span l2, query l2 - 2); r2_c: R2 maps to another contig
+        a = l2 // 2
+        cig2, q2 = (('%dM2D%dM' % (a, l2 - 2 - a)), l2 - 2) if fr.get('r2_del') else (None, l2)
+        reads.append(bamgen.make_read(header, name, c2name, r2s, fill(q2, idx * 11 + 3), cigar=cig2, reverse=not rev, paired=True,
+                                      read2=True, proper=c2name == cname, mate_contig=cname, mate_pos=r1s, mate_reverse=rev, tags=tags))
     return reads
 
 
@@ -318,14 +325,15 @@ def run_parallel(btm, call, contigs, tmp, order_seed=None):
     return jobs, raised, plan
 
 
-def run_api(btm, bam, out, method, contigs, tmp, seg, job, fsize, use_pool, threads, order_seed=None):
+def run_api(btm, bam, out, method, contigs, tmp, seg, job, fsize, use_pool, threads, order_seed=None, bed=False):
     from singlecellmultiomics.molecule import MoleculeIterator
 
     def call():
         btm.tag_multiome_multi_processing(bam, out, molecule_iterator=MoleculeIterator, molecule_iterator_args=iterator_args(method),
                                           fragment_size=fsize, bp_per_job=job, bp_per_segment=seg, temp_folder_root=tmp,
                                           use_pool=use_pool, one_contig_per_process=False,
-                                          additional_args={'consensus_mode': None}, n_threads=threads)
+                                          additional_args={'consensus_mode': None}, n_threads=threads,
+                                          job_bed_file=os.path.join(tmp, 'jobs.bed') if bed else None)
     jobs, raised, plan = run_parallel(btm, call, contigs, tmp, order_seed)
     merged = [{k: v for k, v in r.items() if k != 'e'} for r in read_bam(out)] if os.path.exists(out) and not raised else []
     return jobs, merged, raised, plan
@@ -366,6 +374,11 @@ def unplaced_reads(n):
     return fn
 
 
+NAME_SCHEMES = [['chr1', 'chr2', 'chr3', 'chr4', 'chr5', 'chr6'],
+                ['chr1', 'chr11', 'chr1_alt', 'chr111', 'chr1_random', 'chr'],      # names that are substrings of each other
+                ['1', '11', 'MT', 'X', '10', '0']]
+
+
 def random_library(rng, method, big=False, n_small=0):
     """molecules straddling the boundaries of a grid (bin size B, margin F) on 1-3 contigs, trimmed reads of unequal
     length, PCR duplicates with different R2 ends, rejected reads, single-end reads, unplaced reads"""
@@ -376,10 +389,12 @@ def random_library(rng, method, big=False, n_small=0):
         lens = [rng.choice([100000, 130000, 250000]) for _ in range(rng.randint(1, 2))] + \
                [rng.choice([4 * B + 11, 20000, 99999]) for _ in range(n_small)]
         rng.shuffle(lens)
-        contigs = [('chr%d' % (i + 1), l) for i, l in enumerate(lens)]
+        names = rng.choice(NAME_SCHEMES)
+        contigs = [(names[i], l) for i, l in enumerate(lens)]
     else:
+        names = rng.choice(NAME_SCHEMES)
         ragged = rng.random() < 0.5            # contig lengths that are no multiple of the grid / of the number of bins
-        contigs = [('chr%d' % (i + 1), rng.choice([3, 4, 5]) * B + (rng.choice([1, 2, 3, 5, 7, 37, B // 2]) if ragged else 0))
+        contigs = [(names[i], rng.choice([3, 4, 5]) * B + (rng.choice([1, 2, 3, 5, 7, 37, B // 2]) if ragged else 0))
                    for i in range(nct)]
     maxext = rng.choice([F, F, F // 2, F + 25])          # longest fragment of this library (F + 25: precondition can fail)
     frags = []
@@ -412,7 +427,10 @@ def random_library(rng, method, big=False, n_small=0):
                 l2 = 0 if single else rng.randint(min(12, e2), e2)
                 frags.append({'c': c, 'lo': flo, 'hi': fhi, 'rev': rev, 'l1': max(l1, 10), 'l2': l2, 'valid': valid, 'umi': umi if d == 0 or rng.random() < 0.7 else 'AAC',
                               'cell': cell, 'dup_in': rng.random() < 0.1,
-                              'r2_unmapped': (not single) and rng.random() < 0.08})
+                              'r2_unmapped': (not single) and rng.random() < 0.08,
+                              'r2_del': (not single) and l2 >= 12 and rng.random() < 0.15,
+                              'r2_c': rng.choice([x for x in range(len(contigs)) if x != c])
+                              if (not single) and len(contigs) > 1 and rng.random() < 0.06 else -1})
     frags = [f for f in frags if f['l1'] <= f['hi'] - f['lo'] and f['l2'] <= f['hi'] - f['lo']]
     # molecules whose cut site lies in the first / last few bases of a contig (bins must cover the contig to its very ends):
     # NlaIII: forward R1 starting at d (site d); reverse R1 ending at ln-d with its CATG soft-clipped (site ln-d)
@@ -420,18 +438,28 @@ def random_library(rng, method, big=False, n_small=0):
     for c, (cn, ln) in enumerate(contigs):
         for rev in (False, True):
             if rng.random() < 0.85:
-                d = rng.choice([1, 1, 2, 3])
+                d = rng.choice([1, 1, 2, 3] + ([0] if (method == 'nla' and not rev) else []))     # NlaIII forward at 0: site 0
                 ext = rng.randint(24, min(maxext, 60))
                 lo, hi = (ln - d - ext, ln - d) if rev else (d, d + ext)
                 single = rng.random() < 0.4
                 frags.append({'c': c, 'lo': lo, 'hi': hi, 'rev': rev, 'l1': ext if single else rng.randint(20, ext),
                               'l2': 0 if single else rng.randint(12, ext), 'valid': rng.random() < 0.85, 'umi': 'GGT', 'cell': 'cellA',
                               'dup_in': False, 'r2_unmapped': False, 'clip': 4 if (rev and method == 'nla') else 0})
+    for f in frags:
+        if f.get('r2_unmapped') or f['l2'] == 0:
+            f['r2_c'] = -1
     for c in range(len(contigs)):       # every contig carries reads
         if not any(f['c'] == c for f in frags):
             frags.append({'c': c, 'lo': B + 3, 'hi': B + 43, 'rev': False, 'l1': 30, 'l2': 20, 'valid': True, 'umi': 'AAA',
                           'cell': 'cellA', 'dup_in': False, 'r2_unmapped': False})
     frags.sort(key=lambda f: (f['c'], f['lo']))
+    if not big and rng.random() < 0.25:      # a contig without any read (first, middle or last in the header)
+        at = rng.randint(0, len(contigs))
+        contigs.insert(at, ('empty', rng.choice([2 * B, 2 * B + 1])))
+        for f in frags:
+            f['c'] += f['c'] >= at
+            if f.get('r2_c', -1) >= 0:
+                f['r2_c'] += f['r2_c'] >= at
     return {'B': B, 'F': F, 'contigs': contigs, 'frags': frags, 'nun': rng.choice([0, 1, 3]), 'maxext': maxext}
 
 
@@ -502,19 +530,21 @@ def main():
                       'jobs': jr, 'plan': [j['tasks'] for j in jr], 'merged': [], 'raised': '',
                       'case': dict(case, jobs=[[task_rec(t) for t in j] for j in jobs])})
             if k < napi:
-                seg = rng.choice([lib['B'], lib['B'], lib['B'], lib['B'], lib['B'] // 2 + 7, 2 * lib['B']])
-                fsize = rng.choice([lib['maxext'] + 1, lib['F'], 2 * lib['F']])
-                jobbp = rng.choice([seg, 2 * seg, 10 * seg, seg // 2])
+                seg = rng.choice([lib['B'], lib['B'], lib['B'], lib['B'], lib['B'] // 2 + 7, 2 * lib['B'], 10 * lib['B']])
+                exact = max(f['hi'] - f['lo'] + (1 if (method == 'chic' or f.get('clip')) else 0) for f in lib['frags'])
+                fsize = rng.choice([lib['maxext'] + 1, exact, lib['F'], 2 * lib['F']])      # exact: request == longest fragment
+                jobbp = rng.choice([seg, 2 * seg, 10 * seg, seg // 2, 0, 1])
                 use_pool = k < npool
                 threads = rng.randint(1, 8)
                 par = os.path.join(tmp, 'par%d.bam' % k)
                 order = rng.randint(1, 10 ** 6)
-                jobs, merged, raised, plan = run_api(btm, bam, par, method, lib['contigs'], tmp, seg, jobbp, fsize, use_pool, threads, order)
+                bed = k % 4 == 1       # the -jobbed path: the job generator is materialised and written to a bed file first
+                jobs, merged, raised, plan = run_api(btm, bam, par, method, lib['contigs'], tmp, seg, jobbp, fsize, use_pool, threads, order, bed)
                 tid += 1
                 emit({'ev': 'run', 'tid': tid, 'mode': 'api', 'method': method, 'contigs': clens, 'serial': ser, 'jobs': jobs,
                       'plan': plan, 'merged': merged, 'raised': raised, 'req': fsize,
                       'case': dict(case, api={'seg': seg, 'fsize': fsize, 'jobbp': jobbp, 'use_pool': use_pool, 'threads': threads,
-                                                 'order': order})})
+                                                 'order': order, 'bed': bed})})
             for p in os.listdir(tmp):
                 if p.startswith(('lib%d.' % k, 'ser%d.' % k, 'par%d.' % k)):
                     os.remove(os.path.join(tmp, p))
@@ -527,11 +557,15 @@ def main():
             write_library(bam, lib['contigs'], method, lib['frags'], unplaced_reads(lib['nun']))
             ser = serial_cli(btm, bam, os.path.join(tmp, 'bser%d.bam' % k), method, lib['contigs'])
             threads = [1, 2, 4, 8, 3, 5, 6, 7][k % 8]
+            stale = k % 3 == 0       # the output location already holds the (complete, indexed) output of another run
+            if stale:
+                for ext_ in ('', '.bai'):
+                    shutil.copy(os.path.join(tmp, 'bser%d.bam' % k) + ext_, os.path.join(tmp, 'bpar%d.bam' % k) + ext_)
             jobs, merged, raised, plan = run_cpp(btm, bam, os.path.join(tmp, 'bpar%d.bam' % k), method, lib['contigs'], tmp, threads)
             tid += 1
             emit({'ev': 'run', 'tid': tid, 'mode': 'cpp', 'method': method, 'contigs': [l for _, l in lib['contigs']], 'serial': ser,
                   'jobs': jobs, 'plan': plan, 'merged': merged, 'raised': raised,
-                  'case': {'lib': lib, 'method': method, 'cpp': {'threads': threads}}})
+                  'case': {'lib': lib, 'method': method, 'cpp': {'threads': threads, 'stale': stale}}})
     shutil.rmtree(tmp, True)
 
 
@@ -579,7 +613,7 @@ def replay_case(case_path, outp):
         elif 'api' in case:
             a = case['api']
             jobs, merged, raised, plan = run_api(btm, bam, os.path.join(tmp, 'par.bam'), method, lib['contigs'], tmp, a['seg'],
-                                                 a['jobbp'], a['fsize'], a['use_pool'], a['threads'], a.get('order'))
+                                                 a['jobbp'], a['fsize'], a['use_pool'], a['threads'], a.get('order'), a.get('bed', False))
             ev.update(mode='api', jobs=jobs, merged=merged, raised=raised, plan=plan, req=a['fsize'])
         else:
             jobs, merged, raised, plan = run_cpp(btm, bam, os.path.join(tmp, 'par.bam'), method, lib['contigs'], tmp,
